@@ -1250,6 +1250,9 @@ condexpr(struct scope *s)
 
 	lt = l->type;
 	rt = r->type;
+#ifdef CPROC_VERIF
+	int vlw = (int)bitfieldwidth(l) == -1 ? 0 : (int)bitfieldwidth(l), vrw = (int)bitfieldwidth(r) == -1 ? 0 : (int)bitfieldwidth(r);
+#endif
 	if (lt == rt) {
 		t = lt;
 	} else if (lt->prop & PROPARITH && rt->prop & PROPARITH) {
@@ -1283,7 +1286,7 @@ condexpr(struct scope *s)
 	}
 #ifdef CPROC_VERIF
 	vtrace("{\"e\":\"cond\",\"lt\":\"%s\",\"lw\":%d,\"rt\":\"%s\",\"rw\":%d,\"lnull\":%d,\"rnull\":%d,\"res\":\"%s\"}",
-		vtypename(lt), 0, vtypename(rt), 0, nullpointer(l), nullpointer(r), vtypename(t));
+		vtypename(lt), vlw, vtypename(rt), vrw, nullpointer(l), nullpointer(r), vtypename(t));
 #endif
 	e = eval(e);
 	if (e->kind == EXPRCONST && e->type->prop & PROPINT)
